@@ -74,6 +74,11 @@ func genC15(r *rt.Rand, tier string, idx int) *world.Scenario {
 				// ... and the answer to an earlier read arrives after it
 				cl.Ops = append(cl.Ops, world.Op{K: "followersync", Node: 1, W: 0, Limit: int64(1 + r.Intn(3))})
 			}
+			if r.Chance(0.3) {
+				// ... or a read whose request the leader has answered and whose answer the standby applies only
+				// after it has taken over (the reader's goroutine checked "am I leader" before it asked)
+				cl.Ops = append(cl.Ops, world.Op{K: "followersync", Node: 1, W: 0, Ms: 1})
+			}
 		}
 	}
 	if idx%180 == 13 {
@@ -187,10 +192,33 @@ func c15Custom(t *testing.T, sc *world.Scenario, out *Outcome) {
 	// probes on the new leader, against a healthy engine
 	w.KV.StopFaults()
 	var firstNew uint64
+	lateSync := false
 	okRun := w.RunTask("c15-probe", -1, 20000, func() {
 		// an unguarded delete as the new leader's very first write: whatever revision the node starts
 		// from, a key's history never goes backwards (the write is refused or lands above the stored version)
 		gone := ""
+		for _, h := range w.HeldSyncs {
+			if h.Node != b.ID {
+				continue
+			}
+			b.B.SetCurrentRevision(h.Rev)
+			out.probe("late-follower-sync-applied-after-takeover")
+			lateSync = true
+		}
+		if lateSync {
+			// before any write of the new leader: what the old leader wrote is visible at the new leader's revision
+			l := w.ProbeOp(world.Op{K: "list", Key: "/", End: "0", Node: 1})
+			if l != nil && l.Err == "" {
+				if want := mBefore.Snap(0, "/", "0"); !model.EqualKVs(kvsOf(l.KVs), want) {
+					sig := "data-not-visible-on-new-leader after-late-follower-sync" + eng
+					if startRevB < maxStored {
+						sig = "data-not-visible-on-new-leader" + eng // the node started below the stored revisions: not the late answer's doing
+					}
+					out.violate(P, "data-not-visible-on-new-leader", sig,
+						"a follower read's revision answer (sampled by the old leader) was applied after the node took over: List at the new leader's revision %d returned %s; the store holds %s (new leader initialised at %d)", l.Hdr, fmtKVs(kvsOf(l.KVs)), fmtKVs(want), startRevB)
+				}
+			}
+		}
 		{
 			var live []string
 			for k := range mBefore.Keys {
